@@ -14,6 +14,9 @@ def one(d):
         r = subprocess.run(['patch', '-p1', '-s', '-i', os.path.join(d, 'patch.diff')], cwd=t, capture_output=True, text=True)
         if r.returncode != 0:
             return d, meta, None
+        b = subprocess.run(['go', 'build', './...'], cwd=t, env=ENV, capture_output=True, text=True)
+        if b.returncode != 0:
+            return d, meta, 'nobuild'
         fired = {}
         for p in PROPS:
             r = subprocess.run([os.path.join(ROOT, 'bin', 'sacheck'), '-prop', p, '-repo', t, '-verif', ROOT, '-out', os.path.join(t, 'ev.json')], env=ENV, capture_output=True, text=True)
@@ -33,6 +36,9 @@ def main():
             prop = meta['property']
             if fired is None:
                 rows.append((name, prop, 'patch no longer applies', '', ''))
+                continue
+            if fired == 'nobuild':
+                rows.append((name, prop, 'patch applies but no longer builds', '', ''))
                 continue
             own = ', '.join(fired.get(prop, []))
             others = '; '.join('%s:%s' % (p, ','.join(r)) for p, r in fired.items() if p != prop)
